@@ -134,6 +134,53 @@ def step (d : DState) (toks : List String) : DState × String :=
 
 end CcmDrv
 
+namespace BlockDrv
+open Poly.Model.CCM CcmDrv
+
+def splitSpecs (toks : List String) : List (List String) :=
+  let rec go (acc cur : List (List String) × List String) : List String → List (List String)
+    | [] => (acc.1 ++ [acc.2])
+    | t :: r => if t == ";;" then go (acc.1 ++ [acc.2], []) cur r else go (acc.1, acc.2 ++ [t]) cur r
+  go ([], []) ([], []) toks
+
+def tokenOf (pre : String) (out : String) : String :=
+  match (out.splitOn " ").find? (·.startsWith pre) with
+  | some t => (t.drop pre.length).toString
+  | none => "-"
+
+/-- one block: the transactions in order on the model; per transaction only success / pending / failure is reported
+(`ExecuteBlock` gives no error text), the records are read after the whole block -/
+def step (d : DState) (toks : List String) : DState × String :=
+  match toks with
+  | "blk" :: h :: rest =>
+    let d0 := { d with height := Proto.natOf (val h) }
+    let specs := splitSpecs rest
+    let (d1, outs, xhs, n) := specs.foldl (fun (acc : DState × List String × List String × Nat) sp =>
+      let (dd, outs, xhs, n) := acc
+      let (dd', o) := CcmDrv.step dd sp
+      let cls := (o.splitOn " ").headD ""
+      let shown := if cls == "ok" || cls == "ok-pending" then cls else "fail"
+      let isImp := sp.headD "" == "import"
+      if isImp && cls == "ok" then (dd', outs ++ [shown], xhs ++ [tokenOf "xh=" o], n + 1)
+      else (dd', outs ++ [shown], xhs, n)) (d0, [], [], 0)
+    -- observations after the block
+    let obs := specs.filterMap fun sp =>
+      match sp with
+      | "import" :: _ :: th :: _ :: _ :: src :: _ :: _ :: _ :: _ :: _ :: "dec=1" :: [_, ccid, _, to, _, _, _] =>
+        let srcN := Proto.natOf (val src)
+        let done := if (srcN, Proto.bytesOf ccid) ∈ d1.s.done then "1" else "0"
+        let req := match d1.s.requests.lookup (Proto.natOf to, Proto.bytesOf (val th)) with
+          | some v => Hex.showHex v
+          | none => "-"
+        some (done, req)
+      | _ => none
+    let join (l : List String) := if l.isEmpty then "-" else ",".intercalate l
+    (d1, " | ".intercalate outs ++ " || done=" ++ join (obs.map (·.1)) ++ " req=" ++ join (obs.map (·.2)) ++
+      " xh=" ++ join xhs ++ s!" new={n}")
+  | _ => CcmDrv.step d toks
+
+end BlockDrv
+
 namespace GenesisDrv
 open Poly.Model.Genesis
 
@@ -183,4 +230,5 @@ def main (args : List String) : IO Unit :=
   | ["keys"] => Proto.run ([] : Poly.Model.KeyShape.Store) KeysDrv.step
   | ["ccm"] => Proto.run CcmDrv.init CcmDrv.step
   | ["genesis"] => Proto.run GenesisDrv.init GenesisDrv.step
+  | ["ccmblock"] => Proto.run CcmDrv.init BlockDrv.step
   | _ => IO.eprintln "usage: drv_ccm <family>"
